@@ -1226,7 +1226,11 @@ hdf_read_dims(XDR *xdrs, NC *handle, int32 vg)
                         }
                         if ((!strcmp(vsclass, DIM_VALS01)) ||
                             (!strcmp(vgclass, _HDF_UDIMENSION))) { /* DIM_VALS && _HDF_UDIMENSION */
+#ifdef H4_VERIF
+                            int32 val = 0; /* verification build: start from a definite value (VSread fills it bytewise) */
+#else
                             int32 val; /* needs a temp var since handle->numrecs */
+#endif
                                        /* may not be an int32 */
                                        /*
                                           The call to VSsetfields fails for the files created with the library
